@@ -1553,6 +1553,13 @@ where
     }
 }
 
+/// The directory `d` named the way [`realdirpath`] names the directory of a target in it.
+pub(crate) fn real_dir(d: &Path) -> io::Result<PathBuf> {
+    let mut p = realdirpath(&d.join("_"))?.into_owned();
+    p.pop();
+    Ok(p)
+}
+
 #[cfg(test)]
 mod tests {
     use super::*;
